@@ -1,1 +1,193 @@
-(* placeholder until the proofs land *)
+(* Properties/C07.v — pinned statements for property C07:
+   "Disk cache stays within its size limit, evicts in LRU order, never wedges".
+   Model: Model/Lru.v (LruDiskCache at the granularity of its public API).  Proofs: Proofs/Lru.v.
+
+   Vocabulary (all defined in Proofs/Lru.v):
+     inv s      = acct s /\ hwf s
+       acct s   : measure = sum of indexed sizes, measure + pending_size <= cap,
+                  index keys duplicate-free, pending_size = sum of h_reserved over the live handles
+       hwf s    : handle ids are unique and below next_h
+     dir_ok s   : the directory listing is canonical (strictly sorted by path), mtimes are distinct
+                  and none is in the future (<= clock)
+     good s     = inv s /\ listing sorted /\ disk_ok s
+       disk_ok  : dagree (index = entry files, with sizes) /\ mt_le (mtimes <= clock)
+                  /\ mt_inj (mtimes distinct) /\ ord (index order = strictly ascending mtime order)
+     not_extdel : the op is not ExternalDelete
+     notemp s   : no indexed key and no pending key is named like a cache temp file (".sccachetmp...")
+     op_notemp  : the op does not name such a key *)
+From Coq Require Import List NArith Bool.
+From Sccache Require Import Base.Sx Model.Lru Proofs.Lru.
+Import ListNotations.
+Local Open Scope N_scope.
+
+(* Accounting holds after EVERY op (ExternalDelete and Reopen included), for every op list, every capacity,
+   starting from the open of ANY directory content — no hypothesis on [s] at all — or from any state
+   satisfying the invariant; the third conjunct says it for every intermediate state of the run. *)
+Theorem C07_accounting :
+  (forall s c ops, let s' := run (reopen s c) ops in
+     inv s' /\ measure s' = sumsz (index s') /\ measure s' + pending_size s' <= cap s' /\
+     NoDup (map fst (index s')) /\ pending_size s' = sumres (handles s')) /\
+  (forall s ops, inv s -> inv (run s ops)) /\
+  (forall s ops, inv s -> Forall (fun x => inv (snd x)) (trace s ops)).
+Proof. exact C07_accounting_proof. Qed.
+Print Assumptions C07_accounting.
+
+(* Without external interference: every indexed entry exists on disk with the recorded size and no other
+   entry file exists — after the open of any well-formed directory and after every further op list
+   (overwrites, evictions, failed writers, two-phase stores, reopen with another capacity). *)
+Theorem C07_disk_agrees :
+  (forall s c, dir_ok s -> good (reopen s c)) /\
+  (forall s ops, good s -> Forall not_extdel ops ->
+     good (run s ops) /\
+     forall k sz, alookup k (index (run s ops)) = Some sz <->
+                  exists mt, alookup k (files (run s ops)) = Some (sz, mt)).
+Proof. exact C07_disk_agrees_proof. Qed.
+Print Assumptions C07_disk_agrees.
+
+(* One step (any op but Reopen), k = the op's own key (Commit: the handle's key; any k for key-less ops):
+   apart from k, what is left of the index is a suffix of what was there — the evicted entries [pre] are a
+   prefix in LRU order — and the files of the evicted keys are gone. *)
+Theorem C07_lru_order :
+  forall s o k, inv s -> op_key_ok s o k ->
+    exists pre, aremove k (index s) = pre ++ aremove k (index (fst (step s o))) /\
+      forall k', In k' (map fst pre) -> alookup k' (files (fst (step s o))) = None.
+Proof. exact C07_lru_order_proof. Qed.
+Print Assumptions C07_lru_order.
+
+(* A lookup counts as use: Get of an indexed key whose file exists succeeds, moves the key to the
+   most-recent end and stamps its file with an mtime above every other file's.  The bound needs
+   "mtimes <= clock", which is preserved by EVERY op; under [good] both hypotheses are implied. *)
+Theorem C07_get_is_use :
+  (forall s k sz fsz mt,
+     alookup k (index s) = Some sz -> alookup k (files s) = Some (fsz, mt) ->
+     snd (step s (Get k)) = ORes ROk (Some k) /\
+     index (fst (step s (Get k))) = aremove k (index s) ++ [(k, sz)] /\
+     alookup k (files (fst (step s (Get k)))) = Some (fsz, clock s + 1) /\
+     (forall k', k' <> k -> alookup k' (files (fst (step s (Get k)))) = alookup k' (files s)) /\
+     (mt_le s -> forall k' sz' mt', k' <> k ->
+        alookup k' (files (fst (step s (Get k)))) = Some (sz', mt') -> mt' < clock s + 1)) /\
+  (forall s ops, inv s -> mt_le s -> mt_le (run s ops)) /\
+  (forall s k sz, good s -> alookup k (index s) = Some sz ->
+     mt_le s /\ exists mt, alookup k (files s) = Some (sz, mt)).
+Proof. exact C07_get_is_use_proof. Qed.
+Print Assumptions C07_get_is_use.
+
+(* An entry larger than the whole cache is refused without disturbing anything (declared size), or —
+   for insert_with, whose size is only known after writing — disturbing nothing but the key itself. *)
+Theorem C07_too_large_refused :
+  forall s k n, cap s < n ->
+    step s (InsertBytes k n) = (s, ORes RTooLarge None) /\
+    step s (InsertFile k n) = (s, ORes RTooLarge None) /\
+    step s (PrepareAdd k n) = (s, ORes RTooLarge None) /\
+    snd (step s (InsertWith k n false)) = ORes RTooLarge None /\
+    index (fst (step s (InsertWith k n false))) = aremove k (index s) /\
+    alookup k (files (fst (step s (InsertWith k n false)))) = None /\
+    (forall k', k' <> k ->
+       alookup k' (index (fst (step s (InsertWith k n false)))) = alookup k' (index s) /\
+       alookup k' (files (fst (step s (InsertWith k n false)))) = alookup k' (files s)).
+Proof. exact C07_too_large_refused_proof. Qed.
+Print Assumptions C07_too_large_refused.
+
+(* No op sequence makes the cache permanently unusable: whatever fits beside the live reservations is
+   stored (and then indexed); once no store is in flight nothing is reserved, so after ANY history from
+   ANY directory every entry up to the capacity can be stored.  (The model has no panic outcome; panics
+   of the real code are caught by the differential leg.) *)
+Theorem C07_never_wedges :
+  (forall s k n, inv s -> pending_size s + n <= cap s ->
+     snd (step s (InsertBytes k n)) = ORes ROk (Some k) /\
+     alookup k (index (fst (step s (InsertBytes k n)))) = Some n /\
+     snd (step s (PrepareAdd k n)) = ORes ROk None) /\
+  (forall s, inv s -> handles s = [] -> pending_size s = 0) /\
+  (forall s0 c ops k n, let s := run (reopen s0 c) ops in
+     handles s = [] -> n <= cap s ->
+     snd (step s (InsertBytes k n)) = ORes ROk (Some k) /\
+     alookup k (index (fst (step s (InsertBytes k n)))) = Some n).
+Proof. exact C07_never_wedges_proof. Qed.
+Print Assumptions C07_never_wedges.
+
+(* Recency survives a restart.  [good] contains the invariant "index order = strictly ascending mtime
+   order of the entry files" (ord), established by the open of any well-formed directory and preserved by
+   every op other than ExternalDelete; reopening with any capacity >= the current total reproduces the index
+   exactly, in the same order.
+
+   Full (unguarded) statement, REFUTED by the model:
+     forall s0 ops c, good s0 -> Forall not_extdel ops -> measure (run s0 ops) <= c ->
+       index (reopen (run s0 ops) c) = index (run s0 ops).
+   Counterexample (C07_ex_temp_named_key_lost_on_restart below): [InsertBytes ".sccachetmpX" 5; Reopen 25] —
+   init deletes every file whose name starts with TEMPFILE_PREFIX, so an entry stored under such a key is
+   dropped by the restart.  Guard [notemp]/[op_notemp]: no op names a key whose file name starts with
+   ".sccachetmp" (sccache's keys are hex digests, so the guard always holds there). *)
+Theorem C07_recency_survives_restart :
+  (forall s c, dir_ok s -> good (reopen s c) /\ notemp (reopen s c)) /\
+  (forall s0 ops, good s0 -> notemp s0 -> Forall not_extdel ops -> Forall op_notemp ops ->
+     good (run s0 ops) /\ notemp (run s0 ops) /\
+     forall c, measure (run s0 ops) <= c -> index (reopen (run s0 ops) c) = index (run s0 ops)).
+Proof. exact C07_recency_survives_restart_proof. Qed.
+Print Assumptions C07_recency_survives_restart.
+
+(* ---------------- non-vacuity ---------------- *)
+
+(* a run that fills the cache and then evicts two entries, oldest first, deleting their files *)
+Example C07_ex_evicts_two_in_order :
+  let a := [97] in let b := [98] in let c := [100; 47; 99] in let d := [101] in
+  let s := run (reopen (empty 25) 25) [InsertBytes a 10; InsertBytes b 10; InsertBytes c 5] in
+  let s' := fst (step s (InsertBytes d 15)) in
+  index s = [(a, 10); (b, 10); (c, 5)] /\ measure s = 25 /\
+  index s' = [(c, 5); (d, 15)] /\ files s' = [(c, (5, 3)); (d, (15, 4))] /\
+  aremove d (index s) = [(a, 10); (b, 10)] ++ aremove d (index s').
+Proof. vm_compute. repeat split. Qed.
+
+(* [dir_ok] is satisfiable by a non-trivial directory: a stale temp file, an oversized file, mtimes not in
+   path order; opening it with capacity 10 keeps only the entry that fits *)
+Example C07_ex_dir_ok :
+  let d0 := {| cap := 0; index := []; measure := 0; pending := []; pending_size := 0;
+               files := [([46; 115; 99; 99; 97; 99; 104; 101; 116; 109; 112; 88], (1, 4));
+                         ([97], (5, 3)); ([98], (7, 1)); ([100; 47; 99], (30, 2))];
+               handles := []; next_h := 0; clock := 10 |} in
+  dir_ok d0 /\ index (reopen d0 10) = [([97], 5)] /\ files (reopen d0 10) = [([97], (5, 3))] /\
+  index (reopen d0 12) = [([98], 7); ([97], 5)].
+Proof.
+  split; [|vm_compute; repeat split].
+  apply dir_ok_of_list.
+  - simpl. intuition (subst; reflexivity).
+  - repeat constructor; discriminate.
+  - simpl. repeat constructor; simpl; intuition discriminate.
+Qed.
+
+(* the empty directory is fine too, so [good]/[notemp] states are reachable from [reopen (empty c) c];
+   and the op-list guards hold for an ordinary history *)
+Example C07_ex_guards :
+  dir_ok (empty 25) /\
+  let ops := [InsertBytes [97] 10; PrepareAdd [98] 10; WriteTmp 0 12; Commit 0; Get [97]; Reopen 25;
+              InsertWith [100; 47; 99] 5 false; Remove [98]] in
+  Forall not_extdel ops /\ Forall op_notemp ops /\
+  index (run (reopen (empty 25) 25) ops) = [([97], 10); ([100; 47; 99], 5)].
+Proof.
+  split; [apply dir_ok_empty|]. split; [|split].
+  - repeat constructor.
+  - repeat (constructor; try reflexivity).
+  - vm_compute. reflexivity.
+Qed.
+
+(* a reopen after Get: the looked-up key stays most recent across the restart *)
+Example C07_ex_reopen_after_get :
+  let s := run (reopen (empty 25) 25) [InsertBytes [97] 10; InsertBytes [98] 10; Get [97]] in
+  index s = [([98], 10); ([97], 10)] /\ files s = [([97], (10, 3)); ([98], (10, 2))] /\
+  index (reopen s 25) = index s.
+Proof. vm_compute. repeat split. Qed.
+
+(* the counterexample to the unguarded restart statement *)
+Example C07_ex_temp_named_key_lost_on_restart :
+  let t := [46; 115; 99; 99; 97; 99; 104; 101; 116; 109; 112; 88] in
+  let s := run (reopen (empty 25) 25) [InsertBytes t 5] in
+  index s = [(t, 5)] /\ index (reopen s 25) = [] /\ files (reopen s 25) = [].
+Proof. vm_compute. repeat split. Qed.
+
+(* reservations that together exceed the capacity, a commit larger than reserved: refused, nothing leaks,
+   and the whole capacity is usable afterwards *)
+Example C07_ex_not_wedged :
+  let s := run (reopen (empty 25) 25)
+             [PrepareAdd [97] 20; PrepareAdd [98] 20; WriteTmp 0 40; Commit 0] in
+  pending_size s = 0 /\ handles s = [] /\
+  snd (step s (InsertBytes [98] 25)) = ORes ROk (Some [98]).
+Proof. vm_compute. repeat split. Qed.
